@@ -165,4 +165,13 @@ def resize_families(tier, containers):
                         scen.append(dict(base, id="rz_%d" % n, setup=setup, threads=[[aop], [trigger, {"op": "Size"}]],
                                          sched=dict(kind="solo-after", a=0, b=1, park="fn", b_max=4000), max_steps=150000,
                                          note="writer parked in fn, other thread: %s" % what))
+            # (3) a delete that requests a shrink, frozen after K of its steps, while the other thread clears (or grows) the
+            #     table; then more writes by both: a resize that gives up must leave the flag clear and wake the waiters
+            for K in range(1, 70, 3 if quick else 1):
+                for bops in ([{"op": "Clear"}, _st(cont, 8, 80), {"op": "Load", "k": 8}],
+                             [_st(cont, 3000 + K, 1)] + [_st(cont, 3100 + j, 2) for j in range(3)]):
+                    n += 1
+                    scen.append(dict(base, id="rz_%d" % n, setup=sparse, threads=[[{"op": "Delete", "k": left[0]}, _st(cont, 7, 70), {"op": "Load", "k": 7}], bops],
+                                     sched=dict(kind="solo-after", a=0, b=1, k=K, b_max=4000), max_steps=150000,
+                                     note="shrink request frozen k=%d" % K))
     return scen
